@@ -51,6 +51,7 @@ Definition frun_op (k : fkb) (roots : list nat) (s : fstate) (op : sx) : fstate 
   | L [A 10] => let s' := f_flush reg s in (s', L [efstate n s'])
   | L [A 11; i; w] => let s' := f_reset_world s (dnat i) (dbnd w) in (s', L [efstate n s'])
   | L [A 16] => (s, L [efstate n s])   (* read-only calls: print(), state(), is_contradiction(): nothing changes, no row appears *)
+  | L [A 18] => (s, L [eq_ (Qred (f_uncertainty_loss k reg s))])
   | L [A 14] => (s, L [eq_ (Qred (f_contradiction_loss k reg s))])
   | L [A 17; labs] =>   (* labels per object -> per object: (sum of squared errors, labelled rows present) or -1 *)
       let lab := dlist (fun x => match x with L [i; d] => (dnat i, ddata d) | _ => (0%nat, []) end) labs in
